@@ -393,6 +393,11 @@ def r11_4(run, registered_ufuncs):
                    "const-only ufuncs get the silent unwrapping caster: non-constant tensors are dropped from the graph")
         else:
             run.ob("R11.4", loc(au, c), au.short, f"caster = {norm(c.value)}", False, "unknown caster")
+    # any other way of binding the caster (a nested def, a lambda, a conditional expression) is an unknown caster
+    for n_ in own_nodes(au.node):
+        if isinstance(n_, (ast.FunctionDef, ast.AsyncFunctionDef)) and n_.name == "caster":
+            run.ob("R11.4", loc(au, n_), au.short, "caster = <locally defined function>", False,
+                   "a hand-written caster replaces the raising one: non-constant tensors can be unwrapped silently and drop out of the graph")
     if not any(norm(c.value) == "_as_constant_array" for c in casters):
         run.ob("R11.4", loc(au, au.node), au.short, "const-only branch selects the raising caster", False, "no `caster = _as_constant_array`")
     ca = anchor_func(run, f"{TB}._as_constant_array")
